@@ -174,7 +174,8 @@ struct TcpNameserver {
     tcp: Option<tokio::net::TcpStream>,
     tcp_last_send_activity: Instant,
     tcp_last_recv_activity: Instant,
-    qid2reply: std::collections::HashMap<u16, Responder<super::dnspkt::DNSPkt>>,
+    /* Query id on this connection -> (the id the caller chose, where its reply goes) */
+    qid2reply: std::collections::HashMap<u16, (u16, Responder<super::dnspkt::DNSPkt>)>,
 }
 
 impl TcpNameserver {
@@ -220,19 +221,34 @@ impl TcpNameserver {
     }
 
     async fn send_tcp_reply(&mut self, qid: u16, reply: Result<super::dnspkt::DNSPkt, Error>) {
-        if let Some(resp) = self.qid2reply.remove(&qid) {
-            resp.send(reply).unwrap();
+        if let Some((orig_qid, resp)) = self.qid2reply.remove(&qid) {
+            /* The waiter may have given up (its client went away), which is not an error here. */
+            let _ = resp.send(reply.map(|mut pkt| {
+                pkt.qid = orig_qid;
+                pkt
+            }));
         } else {
             log::error!("Sending reply to unknown request: {:?}", reply);
         }
     }
 
-    async fn send_tcp_query(&mut self, msg: TcpNameserverMessage) -> Result<(), Error> {
-        assert!(
-            self.qid2reply
-                .insert(msg.out_query.qid, msg.out_reply)
-                .is_none()
-        ); // TODO: Collisions!
+    async fn send_tcp_query(&mut self, mut msg: TcpNameserverMessage) -> Result<(), Error> {
+        /* Query ids only have to be unique on this connection.  If the id the caller chose is
+         * already in flight, use the next free one, and translate it back in the reply.
+         */
+        let orig_qid = msg.out_query.qid;
+        let mut qid = orig_qid;
+        while self.qid2reply.contains_key(&qid) {
+            qid = qid.wrapping_add(1);
+            if qid == orig_qid {
+                let _ = msg.out_reply.send(Err(Error::Internal(
+                    "All query ids are in flight on this connection".into(),
+                )));
+                return Ok(());
+            }
+        }
+        msg.out_query.qid = qid;
+        self.qid2reply.insert(qid, (orig_qid, msg.out_reply));
         if let Some(ref mut tcp_sock) = self.tcp {
             use tokio::io::AsyncWriteExt as _;
             let bytes = msg.out_query.serialise();
@@ -291,12 +307,11 @@ impl TcpNameserver {
     fn tcp_teardown(&mut self, err: Error) {
         self.tcp = None;
         log::trace!("Tearing down {} TCP channel: {}", self.addr, err);
-        for (_qid, chan) in self.qid2reply.drain() {
-            chan.send(Err(Error::TcpConnection(format!(
+        for (_qid, (_orig_qid, chan)) in self.qid2reply.drain() {
+            let _ = chan.send(Err(Error::TcpConnection(format!(
                 "TCP channel closed before reply: {}",
                 err
-            ))))
-            .unwrap();
+            ))));
         }
     }
 
@@ -351,7 +366,7 @@ impl TcpNameserver {
                     Ok(sock) => self.tcp = Some(sock),
                     /* If we can't open the channel, report the error, and give up. */
                     Err(err) => {
-                        msg.out_reply.send(Err(Error::FailedToSend(err))).unwrap();
+                        let _ = msg.out_reply.send(Err(Error::FailedToSend(err)));
                         continue;
                     }
                 }
